@@ -55,7 +55,7 @@ def run(ctx):
         return
     rng = ctx.rng
     runner = SimRunner(ctx, exe)
-    nprog = ctx.n(140, 1500)
+    nprog = ctx.n(200, 1500)
     nsched = ctx.n(60, 400)
     progs, seen = [], set()
     # corpus first: lines `(case ...)`; their programs join the generated ones with a pinned schedule
@@ -128,11 +128,11 @@ def run(ctx):
         for kind, _ in classify(s, base.get(pi)):
             fk = None
             if kind == "differs" and f8_shape(tp, s, base.get(pi)):
-                # one worker: only the same-worker direct notification can overtake the snapshot (F17);
-                # several workers: the replaced worker answer (F8) or F17, not told apart here
-                fk = "F17" if cfg[0] == 1 else "F8"
-            elif simlib.f16_shape(s):
-                fk = "F16"
+                # one worker: only the same-worker direct notification can overtake the snapshot (F72);
+                # several workers: the replaced worker answer (F8, recorded for C05; here "F8c03") or F72, not told apart here
+                fk = "F72" if cfg[0] == 1 else "F8c03"
+            elif simlib.f71_shape(s):
+                fk = "F71"
             key = ("*", kind, fk) if fk else (tp["name"], kind, None)
             failures.setdefault(key, []).append(i)
     # report (shrunk) failures
